@@ -635,7 +635,7 @@ func handleBatchWriteRequestError(table string, req types.WriteRequest, unproces
 // TransactWriteItems mock response for dynamodb
 func (fd *Client) TransactWriteItems(ctx context.Context, input *dynamodb.TransactWriteItemsInput, opts ...func(*dynamodb.Options)) (*dynamodb.TransactWriteItemsOutput, error) {
 	if fd.forceFailureErr != nil {
-		return nil, ErrForcedFailure
+		return nil, fd.forceFailureErr
 	}
 
 	//TODO: Implement transact write
